@@ -1,6 +1,7 @@
 --------------------------- MODULE ServiceNotifyMC ---------------------------
 (* Exhaustive configurations of ServiceNotify.tla. *)
 EXTENDS ServiceNotify
+Seq1 == <<"x1">>
 Seq2 == <<"x1", "x2">>
 Seq3 == <<"x1", "x2", "x3">>
 =============================================================================
